@@ -49,7 +49,7 @@ def run(ctx):
         raise AnalysisBroken('C13: shared-state inventory found only %d entries' % len(ents))
     for e in ents:
         ok = e['kind'] in ('immutable', 'init-once', 'atomic', 'mutex', 'link-constant', 'lock-guarded',
-                           'atomic-member')
+                           'atomic-member', 'thread-local')
         ctx.check(ok, 'C13-inventory', '%s : %s' % (e['qn'], e['type']), e['pos'],
                   'shared state that is neither immutable, init-once, atomic, nor consistently guarded by '
                   'one static mutex (%s): concurrent calls race on it' % (e['why'] or e['kind']),
